@@ -73,7 +73,7 @@ def read_evalstring(cs, i, path):
     return pieces, i
 
 
-def parse_manifest(text):
+def parse_manifest(text, top=None):
     """-> (rules: {name: {var: pieces}}, builds: [dict(outs, implicit, rule, ins, deps, order, vars)])
     names of rules/variables are concrete in everything meson writes"""
     cs = chars_of(text)
@@ -137,6 +137,23 @@ def parse_manifest(text):
                 p, i = read_evalstring(line, i, True)
                 b[sect].append(p)
             builds.append(b); cur = b['vars']
+        elif word == 'default' and top is not None:
+            while True:
+                while i < len(line) and is_(line[i], ' '): i += 1
+                if i >= len(line): break
+                p, i = read_evalstring(line, i, True)
+                top.setdefault('default', []).append(p)
+            cur = None
+        elif word == 'pool' and top is not None:
+            cur = top.setdefault('pools', {}).setdefault(mkstr(line[i + 1:]), {})
+        elif top is not None and isinstance(word, str) and word and all(c in VARCH + '.' for c in word):
+            j = i
+            while j < len(line) and is_(line[j], ' '): j += 1
+            if j >= len(line) or not is_(line[j], '='): raise DecodeError('unknown statement')
+            j += 1
+            while j < len(line) and is_(line[j], ' '): j += 1
+            pieces, _ = read_evalstring(line, j, False)
+            top.setdefault('vars', {})[word] = pieces; cur = None
         else:
             raise DecodeError('unknown statement')
     return rules, builds
